@@ -65,6 +65,17 @@ def check(P, R):
     rn = P.func(f'{ER}:render')
     g, rd = rn.cfg, rn.rd
     urlp = rn.params[1]
+    # shape-independent first: nothing taken from the request is (part of) a format string - html escaping leaves { } [ ] . alone, so an
+    # escaped URL inside the template is still interpreted by str.format
+    for c in [c for c in walk_shallow(rn.node) if isinstance(c, ast.Call) and call_attr(c) in ('format', 'format_map')]:
+        nn_ = g.node_of_stmt(c)[0]
+        cl_ = rd.closure_nodes(c.func.value, nn_)
+        via = [x for x in cl_ if (isinstance(x, ast.Name) and x.id == urlp and not rd.is_local(x.id)) or is_source(x, rn)]
+        via += [x for x in cl_ if isinstance(x, ast.Name) and x.id == urlp and all(d_.kind == 'param' for d_ in rd.at(nn_, urlp))]
+        R.ob('C20.d', rn, c, not via, text=f'`{short(c.func.value, 40)}.format(..)`: the format string holds no request text', detail='' if not via else
+             f'the string that `.format()` is applied to is built from the request URL (`{short(c.func.value, 50)}`): html escaping does not touch braces, so a query string '
+             f'or Host containing a replacement field ({{e.__traceback__.tb_frame.f_locals[environ][QUERY_STRING]}}) is expanded by format() to raw request text, emitted unescaped',
+             why='request text reaches the error page only escaped', key_extra='format-string-taint')
     ctxs = [c for c in walk_shallow(rn.node) if isinstance(c, ast.Call) and dotted(c.func) == 'dict' and c.keywords]
     if not ctxs:
         ctxs = [c for c in walk_shallow(rn.node) if isinstance(c, ast.Dict)]
@@ -336,6 +347,26 @@ def check(P, R):
     ok = bool(dumps) and gd.edge_dominates(jt[0], jlab, gd.node_of_stmt(dumps[0])[0]) and \
         isinstance(T.expand(de, dumps[0].args[0], gd.node_of_stmt(dumps[0])[0]), (ast.Call, ast.Dict))
     R.ob('C20.e', de, dumps[0] if dumps else de.node, ok, text='JSON requested -> json.dumps(dict(...))', detail='' if ok else 'the JSON error body is not produced by json.dumps of a dict')
+    # what json.dumps is given can be encoded: the values of the dict are text (repr(..), the error body, the traceback *text*).  The traceback slot of
+    # every HTTPError the framework builds holds formatted text or None, never a traceback object
+    n_tb = 0
+    for fx in P.all_funcs():
+        if not fx.fq.startswith('ombott.') or fx.module.name.endswith('server_adapters') or isinstance(fx.node, ast.Lambda):
+            continue
+        for c in walk_shallow(fx.node):
+            if isinstance(c, ast.Call) and (dotted(c.func) or '').split('.')[-1] == 'HTTPError':
+                tb = c.args[3] if len(c.args) > 3 else next((k.value for k in c.keywords if k.arg == 'traceback'), None)
+                if tb is None:
+                    continue
+                n_tb += 1
+                tbx = T.expand(fx, tb, fx.cfg.node_of_stmt(c)[0])
+                ok_tb = is_const(tbx, None) or (isinstance(tbx, ast.Call) and (dotted(tbx.func) or '').split('.')[-1] in ('format_exc', 'str', 'join', 'format_exception_only')) \
+                    or (isinstance(tbx, ast.Constant) and isinstance(tbx.value, str)) or isinstance(tbx, ast.JoinedStr)
+                R.ob('C20.e', fx, c, ok_tb, text=f'HTTPError(..., traceback={short(tbx, 40)}): text or None', detail='' if ok_tb else
+                     f'the framework builds an error whose traceback slot holds `{short(tbx, 50)}` (not text): when JSON is requested, json.dumps(dict(..., traceback=res.traceback)) '
+                     f'raises TypeError, the error escapes _cast and the client gets the last-resort HTML page instead of JSON',
+                     why='when JSON is requested the error body is valid JSON', key_extra='traceback-text')
+    R.require(n_tb >= 1, f'{n_tb} HTTPError(..., traceback) construction sites found (2 on the pinned tree)')
     cts = [st for st in walk_shallow(de.node) if isinstance(st, ast.Assign) and 'Content-Type' in src(st.targets[0]) and is_const(st.value, 'application/json')]
     ok = bool(cts) and gd.edge_dominates(jt[0], jlab, gd.node_of_stmt(cts[0])[0])
     R.ob('C20.e', de, cts[0] if cts else de.node, ok, text='Content-Type: application/json on the same branch', detail='' if ok else 'the JSON body is not labelled application/json')
